@@ -19,7 +19,7 @@ func init() {
 		},
 		N: func(tier string) int {
 			if tier == "quick" {
-				return 128
+				return 256
 			}
 			return 3000
 		},
